@@ -303,8 +303,27 @@ class Interp:
             return None
         args = call.args
         kw = {k.arg: k.value for k in call.keywords if k.arg}
+        # BTSString.read(w, stream.read(w)) is what BTSString.bread(stream, w) does (its definition, checked by the string-codec rule)
+        if isinstance(f.value, ast.Name) and f.attr == "read" and f.value.id not in self.env and len(args) >= 2 and isinstance(args[1], ast.Call) \
+                and isinstance(args[1].func, ast.Attribute) and args[1].func.attr == "read" and self.is_stream(args[1].func.value) and len(args[1].args) == 1 \
+                and norm(self.ev(args[1].args[0])) == norm(self.ev(args[0])):
+            r = self.prog.resolve(self.m, f.value.id)
+            if r and r[0] == "class" and r[1].name == "BTSString":
+                enc = args[2] if len(args) > 2 else kw.get("encoding")
+                return Str(node=call, width=self.ev(args[0]), encoding=enc)
         # stream.write / read / seek
         if self.is_stream(f.value):
+            # stream.write(BTSString.write(w, v)) is what BTSString.bwrite(stream, w, v) does
+            if f.attr == "write" and len(args) == 1 and isinstance(args[0], ast.Call) and isinstance(args[0].func, ast.Attribute) and args[0].func.attr == "write" \
+                    and isinstance(args[0].func.value, ast.Name) and args[0].func.value.id not in self.env:
+                r = self.prog.resolve(self.m, args[0].func.value.id)
+                if r and r[0] == "class" and r[1].name == "BTSString":
+                    a2 = args[0].args
+                    k2 = {k.arg: k.value for k in args[0].keywords if k.arg}
+                    wd = a2[0] if a2 else k2.get("size")
+                    val = a2[1] if len(a2) > 1 else k2.get("data")
+                    if wd is not None and val is not None:
+                        return Str(node=call, width=self.ev(wd), value=self.ev(val))
             if f.attr == "write" and len(args) == 1:
                 return Raw(node=call, op="write", nbytes=self.bytes_len(args[0]), value=self.ev(args[0]))
             if f.attr == "read":
